@@ -318,7 +318,9 @@ def _core_source():
 
 def program(call):
     return ("import os, sys\nsys.path.insert(0, os.environ.get('VERIF_REPO', '/repo'))\nimport fastparquet\n"
-            + _core_source() + f"\nWHAT = {call}\nprint(WHAT)\nVIOLATED = WHAT is not None\n")
+            + _core_source() + "\ntry:\n" + f"    WHAT = {call}\n"
+            + "except Exception as e:      # an escaping exception is a failed contract\n"
+            + "    WHAT = f'{type(e).__name__}: {e}'\nprint(WHAT)\nVIOLATED = WHAT is not None\n")
 
 
 class snippet:
@@ -411,37 +413,65 @@ def enumerate_verify(tier):
 
 
 def _worker_main():
+    """child process (plain `python -m runtime.c14_many_files`, PYTHONHASHSEED=0): jobs (JSON list of [index, spec]) on
+    stdin; a line `B <i>` before and `E <i> <json what>` after every case, so that the parent can tell which case was
+    running if this process dies in native code."""
     import traceback
     fp = import_fastparquet()
-    out = []
-    for kind, spec in json.load(sys.stdin):
+    out = sys.stdout
+    for i, spec in json.load(sys.stdin):
+        out.write(f"\nB {i}\n")
+        out.flush()
         try:
-            out.append(check_many(fp, spec) if kind == "concat" else check_verify(fp, spec))
+            what = check_many(fp, spec[1]) if spec[0] == "concat" else check_verify(fp, spec[1])
         except BaseException as e:      # noqa: any escape = failed contract (reported by the parent)
             tb = traceback.extract_tb(e.__traceback__)
             at = f"{os.path.basename(tb[-1].filename)}:{tb[-1].lineno} {tb[-1].name}" if tb else "?"
-            out.append(f"{type(e).__name__}: {str(e)[:200]} @ {at}")
-    sys.stdout.write("\nRESULTS " + json.dumps(out) + "\n")
+            what = f"{type(e).__name__}: {str(e)[:200]} @ {at}"
+        out.write(f"\nE {i} {json.dumps(what)}\n")
+        out.flush()
 
 
-def _run_chunk(chunk):
-    env = dict(os.environ, PYTHONHASHSEED="0")
-    r = subprocess.run([sys.executable, "-m", "runtime.c14_many_files"], input=json.dumps(chunk), capture_output=True,
-                       text=True, env=env, cwd=os.path.dirname(os.path.dirname(os.path.abspath(__file__))), timeout=900)
-    line = [l for l in r.stdout.splitlines() if l.startswith("RESULTS ")]
-    if r.returncode != 0 or not line:
-        raise RuntimeError(f"c14 worker failed rc={r.returncode}: {r.stderr[-500:]}")
-    return json.loads(line[-1][8:])
+NOT_EVALUATED = "\x00not-evaluated"
+
+
+def _run_chunk(indexed):
+    res, todo, deaths = {}, list(indexed), 0
+    while todo:
+        r = subprocess.run([sys.executable, "-m", "runtime.c14_many_files"], input=json.dumps(todo), capture_output=True,
+                           text=True, env=dict(os.environ, PYTHONHASHSEED="0"), timeout=1800,
+                           cwd=os.path.dirname(os.path.dirname(os.path.abspath(__file__))))
+        began = None
+        for line in r.stdout.splitlines():
+            if line.startswith("B "):
+                began = int(line[2:])
+            elif line.startswith("E "):
+                _, i, payload = line.split(" ", 2)
+                res[int(i)] = json.loads(payload)
+                began = None
+        if r.returncode == 0 and began is None and all(i in res for i, _ in todo):
+            break
+        if began is None:
+            raise RuntimeError(f"c14_many_files worker failed rc={r.returncode}: {r.stderr[-500:]}")
+        sig = f"signal {-r.returncode}" if r.returncode < 0 else f"exit code {r.returncode}"
+        res[began] = f"child process died ({sig}) while this case was running: {r.stderr.strip()[-160:]}"
+        deaths += 1
+        todo = [(i, j) for i, j in todo if i not in res]
+        if deaths >= 6:
+            for i, _ in todo:
+                res[i] = NOT_EVALUATED
+            break
+    return res
 
 
 def run_jobs(jobs, nproc):
-    chunks = [jobs[i::nproc] for i in range(nproc)]
+    indexed = list(enumerate(jobs))
     with concurrent.futures.ThreadPoolExecutor(max_workers=nproc) as tex:
-        parts = list(tex.map(_run_chunk, chunks))
-    out = [None] * len(jobs)
-    for i, part in enumerate(parts):
-        out[i::nproc] = part
-    return out
+        parts = list(tex.map(_run_chunk, [indexed[i::nproc] for i in range(nproc)]))
+    merged = {}
+    for part in parts:
+        merged.update(part)
+    return [merged[i] for i in range(len(jobs))]
 
 
 def run_bounded(ctx):
@@ -460,7 +490,12 @@ def run_bounded(ctx):
     jobs = [("concat", s) for s in concat] + [("verify", s) for s in verify]
     ncpu = os.cpu_count() or 2
     results = run_jobs(jobs, max(2, min(12, ncpu - 4)))
+    skipped = sum(1 for w in results if w == NOT_EVALUATED)
+    if skipped:
+        ctx.note(f"c14: {skipped} cases not evaluated because worker processes kept dying (each death is a failed case)")
     for (kind, spec), what in zip(jobs, results):
+        if what == NOT_EVALUATED:
+            continue
         if kind == "concat":
             F = concat_features(spec)
             with Case(ctx, GC, F, snippet=snippet(f"check_many(fastparquet, {spec!r})"),
